@@ -1,13 +1,15 @@
 #!/bin/sh
-# Offline setup: build the harness variants used by the quick checks and smoke-test TLC.
+# Offline setup: warm the content-hash build cache (library objects for every variant the quick checks use)
+# and smoke-test TLC.  Checks rebuild on demand from /repo's working tree anyway, so this only saves time.
 set -e
 cd "$(dirname "$0")"
 python3 - <<'PY'
 import sys
 sys.path.insert(0, '.')
 from vlib import core
-for v in ("plain", "hi"):
-    core.build(v)
+todo = [("plain", ("bool",)), ("hi", ("bool",)), ("z", ("z",)), ("asan", ("c10",)), ("asanx", ("c10",)), ("asanz", ("c10",)), ("tsan", ("thr",)),
+        ("plain", ("hist",)), ("plain", ("repr",)), ("plain", ("open",)), ("plain", ("off",)), ("plain", ("thr",)), ("plain", ("z",))]
+core.run_parallel(lambda t: core.build(t[0], t[1]), todo, n=4)
 r = core.tlc_ok(core.tlc("FillLemmas", "FillLemmas.cfg", timeout=300), "FillLemmas")
 print("setup ok: TLC states", r.distinct)
 PY
